@@ -58,6 +58,43 @@ CLAIMED["C01"] = dict(
     technique="Lean 4 proof (trace invariants over all schedules) + trace validation + Spec monitors on recorded runs",
     note=SOCK_NOTE)
 
+CLAIMED["C07"] = dict(
+    text="Theorems in Props/C07.lean for every reachable state of the coroutine model under every schedule and every environment "
+         "behaviour: every transport the client holds open is its current reader/writer (C07_held_open_is_current), so it never "
+         "holds two (C07_at_most_one_connection, and C07_trace_single for the Spec's own trace monitor), every other transport ever "
+         "opened is closing or closed (C07_abandoned_are_closed), at most one task is inside open_connection. The healing clause "
+         "(connected, receiving and transmitting again once the network behaves) is decided on recorded fault scripts of the real "
+         "socket by the Spec monitor `healed` (not a theorem: it is a liveness statement about the environment) - partial. Every "
+         "recorded run is replayed block by block against the model.",
+    design_ref="DESIGN.md section 7, C07",
+    technique="Lean 4 proof (inductive invariant over all interleavings) + trace validation + Spec monitors on recorded fault scripts",
+    note=SOCK_NOTE + "Healing/progress is checked on recorded runs only.")
+CLAIMED["C15"] = dict(
+    text="Theorems in Props/C15.lean: in every state reached (under every schedule) after close() has returned and before a later "
+         "open, the socket is closed, disconnected, not connecting, holds no live transport and every background task has finished "
+         "(C15_closed_state); from such a state no label produces a connection attempt, an opened transport, a frame, an accepted "
+         "send, a delivery or a connected notification, and sends are refused with not-open leaving the queue unchanged "
+         "(C15_quiet_after_close, C15_no_activity_after_close, C15_send_after_close, C15_quiet_run); the Spec's own monitor holds on "
+         "the model's trace (C15_trace_monitor). Hypothesis: open()/close() are not issued while another close() is in progress "
+         "(a second concurrent close() returns at once - proved counterexample closedNow_needs_discipline, see DESIGN.md). Recorded "
+         "runs (close at an arbitrary point of outage/steady/fault scripts, 1000 s idle, census of tasks, timers and transports, "
+         "optional re-open with probes) are judged by the monitor and replayed against the model.",
+    design_ref="DESIGN.md section 7, C15",
+    technique="Lean 4 proof (closed-state invariant + one-step quietness over all schedules) + trace validation + census monitor on recorded runs",
+    note=SOCK_NOTE + "API-level shutdown()/re-init is covered by the API harness when present.")
+CLAIMED["C08"] = dict(
+    text="Theorems in Props/C08.lean over the timed model of HeartbeatManager (Model/Heartbeat.lean), for every label sequence and every "
+         "(interval, timeout): the deadline is always exactly `timeout` after the latest arm point (start, consumed response, reset "
+         "done, expiry while down) and time never passes it (C08_deadline_never_missed, C08_silence_detected*), on expiry the "
+         "connection is reset iff it is up (C08_expiry_enabled, C08_reset_at_deadline), a reset only ever happens after a full "
+         "timeout without a response (C08_reset_only_after_full_silence, C08_reset_origin), requests are emitted exactly every "
+         "interval (C08_period), and if every heartbeat is answered within timeout - interval no reset ever occurs "
+         "(C08_no_false_reset; tight by example). The model is tied to the code by simulating recorded scenarios of the real "
+         "HeartbeatManager (virtual clock, stub socket) and comparing event for event; every recording is judged by the Spec monitor c08.",
+    design_ref="DESIGN.md section 7, C08",
+    technique="Lean 4 proof (timed-automaton invariants, simulation against a monitor) + event-for-event correspondence of the model's simulation with the real HeartbeatManager + Spec monitor",
+    note="Assumes timers fire when due (the model's `advance` guard); scenarios whose inputs coincide exactly with a deadline are skipped (order unspecified). The API-level wiring (which message is the heartbeat, response matcher) is checked at the API layer.")
+
 NOT_YET = {
 }
 
